@@ -10,8 +10,10 @@
 //!                   be a `lock()` released by the thread's next operation;
 //!  * `locksearch` — when the hypotheses fail: a search over the interleavings of the observed
 //!                   traces for a schedule that panics or deadlocks (the replay);
-//!  * `locktrace`  — external sampling only: the events the model's traversal makes in each pass
-//!                   (`etrace`), compared as a multiset with what the crate did in that pass.
+//!  * `locktrace`  — external sampling: the events the model's traversal makes in each pass
+//!                   (`etrace`), compared as a multiset with what the crate did in that pass;
+//!  * `vlocktrace` — full / chance sampling: the events of the model's traversal (`vtrace`); the
+//!                   players' mutexes are compared as a multiset, the chance mutexes as a set.
 use crate::core::*;
 use crate::solve_props::Cfg;
 use crate::Ctx;
@@ -155,5 +157,52 @@ pub fn check_locks(ctx: &mut Ctx, case: &Value, t: &T, cfg: &Cfg, log: &[LockRec
             }
         }
         ctx.stat("lock_traces_agree_with_model");
+    }
+    // full / chance sampling: per pass, the mutex of every player infoset is taken exactly once per
+    // node of the infoset the model's traversal visits (`vtrace`, `vtrace_acqCount`); a chance
+    // infoset's mutex is taken in the pass exactly when the model's traversal draws there (the
+    // frontier expansion and the closing recursion both ask it for the cached draw, so the count is
+    // not part of the comparison).  Needs the labels of the vanilla mutexes (hook in /repo).
+    let labelled = log.iter().any(|r| r.op != OP_PHASE && r.index != NO_LABEL);
+    if (cfg.method == "F" || cfg.method == "S") && labelled && cfg.threads != 1 && cfg.iters <= 12 && (cfg.thr.is_nan() || cfg.thr <= 0.0) && ran_iters.is_some() {
+        let mut req = "vlocktrace ".to_string();
+        t.ser(&mut req);
+        req.push_str(&format!(" {} {} {} {}", cfg.method, cfg.params.ser(), cfg.iters, cfg.seed));
+        let resp = ctx.model.ask(&req);
+        let body = match resp.strip_prefix("ok ") {
+            Some(b) => b,
+            None => {
+                ctx.fail_corr(case, format!("model answered {:?} to vlocktrace", &resp[..resp.len().min(120)]));
+                return;
+            }
+        };
+        let mut tk = Toks::new(body);
+        let n = tk.nat();
+        if n != passes.len() {
+            ctx.fail_corr(case, format!("the crate made {} passes, the model {}", passes.len(), n));
+            return;
+        }
+        for (pi, ts) in passes.iter().enumerate() {
+            let k = tk.nat();
+            let model: Vec<Ev> = (0..k).map(|_| (tk.nat() as u8, tk.nat() as u8, tk.nat())).collect();
+            let flat = |e: Ev| if e.0 == OP_TRY { (OP_LOCK, e.1, e.2) } else { e };
+            let players = |m: BTreeMap<Ev, usize>| -> BTreeMap<Ev, usize> { m.into_iter().filter(|(e, _)| e.1 != 0).collect() };
+            let chances = |m: &BTreeMap<Ev, usize>| -> Vec<Ev> { m.keys().filter(|e| e.1 == 0).cloned().collect() };
+            let a = multiset(ts.iter().flatten().cloned().map(flat));
+            let b = multiset(model.into_iter().map(flat));
+            let (ca, cb) = (chances(&a), chances(&b));
+            let (pa, pb) = (players(a), players(b));
+            if pa != pb {
+                let only_a: Vec<_> = pa.iter().filter(|(e, c)| pb.get(e) != Some(c)).take(4).collect();
+                let only_b: Vec<_> = pb.iter().filter(|(e, c)| pa.get(e) != Some(c)).take(4).collect();
+                ctx.fail_corr(case, format!("pass {}: average-strategy mutex operations (op, kind, infoset) x count differ: crate {:?}, model {:?} (one lock per visited node of the infoset)", pi, only_a, only_b));
+                return;
+            }
+            if ca != cb {
+                ctx.fail_corr(case, format!("pass {}: chance infosets whose mutex was taken: crate {:?}, model {:?}", pi, ca, cb));
+                return;
+            }
+        }
+        ctx.stat("vanilla_lock_traces_agree_with_model");
     }
 }
